@@ -279,7 +279,8 @@ CLAIMED = {
             "and the uploaded revision id is recorded; each top-level name is upload-ignored or not (SYMBOLIC, inherited by "
             "the paths below it), ignored paths were never uploaded and are left out of the comparison, everything else must "
             "match exactly (a file renamed to an ignored name must not stay behind under its old name). Larger directories, "
-            "symlinks, kind changes, executable bits, entries renamed from an ignored name and full uploads are outside.",
+            "symlinks, kind changes, executable bits and full uploads are outside; entries renamed FROM an ignored name are the "
+            "input class of a known finding (the upload aborts with NoSuchFile), re-witnessed on every run.",
             "remote transport = flat map refusing renames onto occupied names; the tree delta is computed by the harness"),
     "C45": ("eol filter stack",
             "All 7 eol settings on content <= 6/9 arbitrary bytes, every chunk split: NUL content untouched, canonical text "
